@@ -206,6 +206,15 @@ class Recorder(TunerCallback):
 
     def on_loop_start(self):
         self._ev("loop_start")
+        # the experiment is also loaded from disk WHILE it runs (same process, unfinished results file): what is read then
+        # must not change what a load after the end of the run returns
+        self.n_loops = getattr(self, "n_loops", 0) + 1
+        if getattr(self, "mid_load", None) is not None and self.n_loops in (2, 4):
+            try:
+                self.mid_load()
+                self.mid_loads = getattr(self, "mid_loads", 0) + 1
+            except Exception:  # noqa  (no file yet)
+                pass
 
     def on_loop_end(self):
         self._ev("loop_end")
@@ -1184,6 +1193,11 @@ def run_loop(spec):
         elif spec.get("cb_store", True):
             store = StoreResultsCallback()
             callbacks.append(store)
+        if store is not None and spec.get("store_every"):
+            def mid_load():
+                with contextlib.redirect_stdout(io.StringIO()), contextlib.redirect_stderr(io.StringIO()):
+                    _load_experiment_fn()("t", download_if_not_found=False)
+            rec.mid_load = mid_load
         crit = make_criterion(spec["criterion"])
         flags = spec.get("flags", {})
         tuning_status_module.time = ClockStub(dlg, random.Random(spec["seed"] + 99), spec.get("clock_step", 0.25))
